@@ -845,6 +845,15 @@ func (p *cparser) unary() string {
 		case "-", "+", "!", "~", "++", "--":
 			p.adv()
 			return sx("un", q(t.s), p.unary())
+		case "&", "*":
+			// address-of / dereference (MSL atomics: `atomic_fetch_add_explicit(&a[i], …)`); the operand of `&` must be an
+			// lvalue — a name, a subscript, a member, a dereference, or one of these in parentheses
+			p.adv()
+			operand := p.unary()
+			if t.s == "&" && !cIsLvalueSexp(operand) {
+				p.fail("address of an expression that is not an lvalue: &%s", operand)
+			}
+			return sx("un", q(map[string]string{"&": "addr", "*": "deref"}[t.s]), operand)
 		}
 	}
 	if p.castAhead() {
@@ -999,6 +1008,14 @@ func (p *cparser) primary() string {
 	}
 	p.fail("unexpected token %q in expression", t.s)
 	return "(empty)"
+}
+
+// cIsLvalueSexp: the S-expression of an expression that designates an object (coarse: by its outermost form).
+func cIsLvalueSexp(e string) bool {
+	for strings.HasPrefix(e, "(paren ") {
+		e = e[len("(paren ") : len(e)-1]
+	}
+	return strings.HasPrefix(e, "(id ") || strings.HasPrefix(e, "(idx ") || strings.HasPrefix(e, "(mem ") || strings.HasPrefix(e, "(un \"deref\"")
 }
 
 // cparse parses one emitted translation unit.
